@@ -564,3 +564,49 @@ def eval_order_formula(model: OrderModel, world, f) -> bool:
         return model.sign(world, f[1]) != 0
     s = model.sign(world, f[2] - f[3])
     return s < 0 if f[1] == "lt" else s == 0
+
+
+# ---------------------------------------------------------------------------------------------------------------------------
+# provenance of call results
+def whole_result(cfg, name: str, at: int, depth: int = 0):
+    """The call whose complete result the variable holds at ``at`` (single definition, through copies), or None."""
+    if depth > 6:
+        return None
+    ds = cfg.defs_of(at, name)
+    if len(ds) != 1 or ds[0].kind != "assign":
+        return None
+    v = ds[0].value
+    if isinstance(v, ast.Call):
+        return v
+    if isinstance(v, ast.Name):
+        return whole_result(cfg, v.id, ds[0].node, depth + 1)
+    return None
+
+
+def result_position_def(cfg, d, depth: int = 0):
+    """(call, position) when the definition stores one position of a call's (tuple) result - by unpacking, by a constant subscript of a
+    variable holding the whole result, or by copying such a variable - else None."""
+    if depth > 6:
+        return None
+    if d.kind == "unpack" and d.path and len(d.path) == 1:
+        if isinstance(d.value, ast.Call):
+            return d.value, d.path[0]
+        if isinstance(d.value, ast.Name):
+            c = whole_result(cfg, d.value.id, d.node)
+            if c is not None:
+                return c, d.path[0]
+        return None
+    if d.kind == "assign" and isinstance(d.value, ast.Name):
+        return result_position(cfg, d.value.id, d.node, depth + 1)
+    if d.kind == "assign" and isinstance(d.value, ast.Subscript) and isinstance(d.value.value, ast.Name) and isinstance(d.value.slice, ast.Constant) and isinstance(d.value.slice.value, int):
+        c = whole_result(cfg, d.value.value.id, d.node)
+        if c is not None:
+            return c, d.value.slice.value
+    return None
+
+
+def result_position(cfg, name: str, at: int, depth: int = 0):
+    ds = cfg.defs_of(at, name)
+    if len(ds) != 1:
+        return None
+    return result_position_def(cfg, ds[0], depth)
